@@ -306,9 +306,15 @@ Proof.
   - intros H. destruct (str_eqb a b) eqn:E; [|reflexivity]. apply str_eqb_eq in E. contradiction.
 Qed.
 
-Lemma etree_key_ok dns q : plainq q = true -> skey_ok dns (etree_key dns q) = true.
+(* the key function without the store test; it is what `etree_key` computes on stores without a
+   `{d}name` key for the default namespace d (etree_key_nc below) *)
+Definition etree_key0 (dns : str) (q : qname) : str :=
+  if (negb (null (fst q)) && negb (str_eqb dns (fst q)))%bool then clark q else snd q.
+Definition skey0 (s : astate) (q : qname) : str := etree_key0 (st_dns s) q.
+
+Lemma etree_key_ok dns q : plainq q = true -> skey_ok dns (etree_key0 dns q) = true.
 Proof.
-  destruct q as [ns n]. unfold plainq, etree_key, skey_ok, skey_shape, collides. cbn [fst snd].
+  destruct q as [ns n]. unfold plainq, etree_key0, clark, skey_ok, skey_shape, collides. cbn [fst snd].
   rewrite andb_true_iff. intros [Hns Hn].
   destruct (null ns) eqn:En; cbn [negb andb].
   - rewrite (spec_clark_plain n Hn). rewrite Hn. reflexivity.
@@ -317,9 +323,9 @@ Proof.
     + rewrite (spec_clark_braced ns n Hns). rewrite En, Hns, Hn, Ed. reflexivity.
 Qed.
 
-Lemma present_etree_key dns q : plainq q = true -> present dns (etree_key dns q) = norm dns q.
+Lemma present_etree_key dns q : plainq q = true -> present dns (etree_key0 dns q) = norm dns q.
 Proof.
-  destruct q as [ns n]. unfold plainq, etree_key, norm. rewrite present_spec. cbn [fst snd].
+  destruct q as [ns n]. unfold plainq, etree_key0, clark, norm. rewrite present_spec. cbn [fst snd].
   rewrite andb_true_iff. intros [Hns Hn].
   destruct (null ns) eqn:En; cbn [negb andb].
   - rewrite (spec_clark_plain n Hn). reflexivity.
@@ -329,11 +335,23 @@ Proof.
 Qed.
 
 Lemma etree_key_norm_iff dns q q' :
-  plainq q = true -> plainq q' = true -> (etree_key dns q = etree_key dns q' <-> norm dns q = norm dns q').
+  plainq q = true -> plainq q' = true -> (etree_key0 dns q = etree_key0 dns q' <-> norm dns q = norm dns q').
 Proof.
   intros H H'. rewrite <- (present_etree_key dns q H), <- (present_etree_key dns q' H'). split.
   - intros ->. reflexivity.
   - apply present_inj; apply etree_key_ok; assumption.
+Qed.
+
+Lemma etree_key_nc dns (st : list (str * str)) q :
+  Forall (fun k => skey_ok dns k = true) (map fst st) -> plainq q = true -> etree_key dns st q = etree_key0 dns q.
+Proof.
+  intros Hk Hq. unfold etree_key, etree_key0. destruct (null (fst q)) eqn:En; [reflexivity|]. cbn [negb andb].
+  destruct (str_eqb dns (fst q)) eqn:Ed; [|reflexivity]. cbn [negb orb].
+  destruct (ahas str_eqb st (clark q)) eqn:Eh; [|reflexivity]. exfalso.
+  apply (ahas_in str_eqb str_eqb_eq) in Eh. rewrite Forall_forall in Hk. specialize (Hk _ Eh).
+  unfold skey_ok, collides, clark in Hk. unfold plainq in Hq. apply andb_true_iff in Hq. destruct Hq as [Hq1 Hq2].
+  rewrite (spec_clark_braced (fst q) (snd q) Hq1) in Hk. rewrite Ed in Hk.
+  apply andb_true_iff in Hk. destruct Hk as [_ Hk]. discriminate.
 Qed.
 
 Lemma plainq_norm dns q : plain dns = true -> plainq q = true -> plainq (norm dns q) = true.
@@ -424,27 +442,27 @@ Section AbsStore.
   Hypothesis Hkeys : Forall (fun k => skey_ok dns k = true) (map fst st).
   Hypothesis Hq : plainq q = true.
 
-  Lemma abs_get : dget (abs_store dns st) (norm dns q) = aget str_eqb st (etree_key dns q).
+  Lemma abs_get : dget (abs_store dns st) (norm dns q) = aget str_eqb st (etree_key0 dns q).
   Proof.
     rewrite <- (present_etree_key dns q Hq). unfold dget. rewrite abs_store_mapk.
     apply (mapk_aget str_eqb qname_eqb (present dns) (fun k => skey_ok dns k = true) str_eqb_eq qname_eqb_eq
              (present_inj dns)); [exact Hkeys|apply etree_key_ok; exact Hq].
   Qed.
-  Lemma abs_has : dhas (abs_store dns st) (norm dns q) = ahas str_eqb st (etree_key dns q).
+  Lemma abs_has : dhas (abs_store dns st) (norm dns q) = ahas str_eqb st (etree_key0 dns q).
   Proof. unfold dhas, ahas. fold (dget (abs_store dns st) (norm dns q)). rewrite abs_get. reflexivity. Qed.
-  Lemma abs_set v : abs_store dns (aset str_eqb st (etree_key dns q) v) = dset (abs_store dns st) (norm dns q) v.
+  Lemma abs_set v : abs_store dns (aset str_eqb st (etree_key0 dns q) v) = dset (abs_store dns st) (norm dns q) v.
   Proof.
     rewrite <- (present_etree_key dns q Hq). unfold dset. rewrite !abs_store_mapk.
     apply (mapk_aset str_eqb qname_eqb (present dns) (fun k => skey_ok dns k = true) str_eqb_eq qname_eqb_eq
              (present_inj dns)); [exact Hkeys|apply etree_key_ok; exact Hq].
   Qed.
-  Lemma abs_del : abs_store dns (adel str_eqb st (etree_key dns q)) = ddel (abs_store dns st) (norm dns q).
+  Lemma abs_del : abs_store dns (adel str_eqb st (etree_key0 dns q)) = ddel (abs_store dns st) (norm dns q).
   Proof.
     rewrite <- (present_etree_key dns q Hq). unfold ddel. rewrite !abs_store_mapk.
     apply (mapk_adel str_eqb qname_eqb (present dns) (fun k => skey_ok dns k = true) str_eqb_eq qname_eqb_eq
              (present_inj dns)); [exact Hkeys|apply etree_key_ok; exact Hq].
   Qed.
-  Lemma keys_ok_set v : Forall (fun k => skey_ok dns k = true) (map fst (aset str_eqb st (etree_key dns q) v)).
+  Lemma keys_ok_set v : Forall (fun k => skey_ok dns k = true) (map fst (aset str_eqb st (etree_key0 dns q) v)).
   Proof.
     apply Forall_forall. intros k Hk. apply (in_keys_aset str_eqb str_eqb_eq) in Hk. destruct Hk as [Hk| ->].
     - rewrite Forall_forall in Hkeys. exact (Hkeys k Hk).
@@ -461,6 +479,22 @@ Proof. unfold abs_store. rewrite !map_map. reflexivity. Qed.
 Lemma abs_store_length dns st : length (abs_store dns st) = length st.
 Proof. unfold abs_store. apply map_length. Qed.
 
+(* the same at the level of a well-formed state, for the key function that looks at the store *)
+Lemma skey_nc s T q : Wf s T -> plainq q = true -> skey s q = etree_key0 (st_dns s) q.
+Proof. intros W Hq. apply etree_key_nc; [apply (wf_keys s T W)|exact Hq]. Qed.
+Lemma abs_get_s s T q : Wf s T -> plainq q = true ->
+  dget (abs_store (st_dns s) (st_store s)) (norm (st_dns s) q) = aget str_eqb (st_store s) (skey s q).
+Proof. intros W Hq. rewrite (skey_nc s T q W Hq). apply abs_get; [apply (wf_keys s T W)|exact Hq]. Qed.
+Lemma abs_set_s s T q v : Wf s T -> plainq q = true ->
+  abs_store (st_dns s) (aset str_eqb (st_store s) (skey s q) v) = dset (abs_store (st_dns s) (st_store s)) (norm (st_dns s) q) v.
+Proof. intros W Hq. rewrite (skey_nc s T q W Hq). apply abs_set; [apply (wf_keys s T W)|exact Hq]. Qed.
+Lemma abs_del_s s T q : Wf s T -> plainq q = true ->
+  abs_store (st_dns s) (adel str_eqb (st_store s) (skey s q)) = ddel (abs_store (st_dns s) (st_store s)) (norm (st_dns s) q).
+Proof. intros W Hq. rewrite (skey_nc s T q W Hq). apply abs_del; [apply (wf_keys s T W)|exact Hq]. Qed.
+Lemma skey_norm_iff s T q q' : Wf s T -> plainq q = true -> plainq q' = true ->
+  (skey s q = skey s q' <-> norm (st_dns s) q = norm (st_dns s) q').
+Proof. intros W H H'. rewrite (skey_nc s T q W H), (skey_nc s T q' W H'). apply etree_key_norm_iff; assumption. Qed.
+
 (* ------------------------------------------------------------------------------------------ *)
 (* objects and views                                                                            *)
 Definition absv (s : astate) (T : list oid) : list vstate := map (fun o => abs_obj (st_dns s) (obj_at s o)) T.
@@ -468,6 +502,9 @@ Definition absv (s : astate) (T : list oid) : list vstate := map (fun o => abs_o
 Lemma abs_sys_eq s T :
   abs_sys (s, T) = mkD (abs_store (st_dns s) (st_store s)) (absv s T) (st_dns s) (st_node_ns s).
 Proof. reflexivity. Qed.
+
+Lemma mkD_eq a a' b b' c c' d d' : a = a' -> b = b' -> c = c' -> d = d' -> mkD a b c d = mkD a' b' c' d'.
+Proof. intros -> -> -> ->. reflexivity. Qed.
 
 Lemma obj_at_nth s o x : nth_error (st_objs s) o = Some x -> obj_at s o = x.
 Proof. intros H. unfold obj_at. apply nth_error_nth. exact H. Qed.
@@ -560,13 +597,16 @@ Qed.
 Lemma wf_store_set s T q v :
   Wf s T -> plainq q = true -> Wf (with_store s (aset str_eqb (st_store s) (skey s q) v)) T.
 Proof.
-  intros [H1 H2 H3 H4 H5 H6 H7 H8] Hq. constructor; cbn; try assumption.
-  - apply keys_ok_set; assumption.
+  intros W Hq. rewrite (skey_nc s T q W Hq).
+  pose proof (keys_ok_set (st_dns s) (st_store s) q (wf_keys s T W) Hq v) as Hk'.
+  destruct W as [H1 H2 H3 H4 H5 H6 H7 H8]. constructor; cbn; try assumption.
   - apply (nodup_aset str_eqb str_eqb_eq). exact H4.
   - intros o Ho. specialize (H8 o Ho). unfold view_ok in *. cbn.
     destruct (nth_error (st_objs s) o) as [[q'|]|]; try assumption.
     apply andb_true_iff in H8. destruct H8 as [Ha Hb]. rewrite Ha. cbn.
-    unfold contains_q, skey in *. cbn. apply contains_mono. exact Hb.
+    unfold contains_q, skey in *. cbn [st_store st_dns with_store].
+    rewrite (etree_key_nc _ _ q' Hk' Ha). rewrite (etree_key_nc _ _ q' H3 Ha) in Hb.
+    apply contains_mono. exact Hb.
 Qed.
 
 Lemma wf_new_cached s T q :
@@ -614,7 +654,8 @@ Definition Good (p : sys * out) (spec : option nat -> dstate * out) : Prop :=
 
 Lemma contains_abs s T q :
   Wf s T -> plainq q = true -> dhas (abs_store (st_dns s) (st_store s)) (norm (st_dns s) q) = contains_q s q.
-Proof. intros W Hq. unfold contains_q, skey. apply abs_has; [apply (wf_keys s T W)|exact Hq]. Qed.
+Proof. intros W Hq. unfold contains_q, dhas, ahas. fold (dget (abs_store (st_dns s) (st_store s)) (norm (st_dns s) q)).
+  rewrite (abs_get_s s T q W Hq). reflexivity. Qed.
 
 (* an extension of the object table (and any change of the cache) is invisible to the client's views *)
 Lemma absv_grow s T objs' cache' e :
@@ -709,12 +750,28 @@ Lemma set_good s T q v :
 Proof.
   intros W Hq. unfold Good. cbn [fst snd].
   pose proof (wf_store_set s T q v W Hq) as W1.
-  pose proof (wf_new_cached _ T q W1) as W2. cbn [st_objs st_cache with_store] in W2.
-  split; [exact W2|]. eexists. split; [|apply out_agrees_refl].
-  rewrite !abs_sys_eq. unfold with_dict. cbn [d_dict d_views d_dns d_node_ns]. unfold setitem_q. cbn.
-  f_equal. f_equal.
-  - symmetry. apply abs_set; [apply (wf_keys s T W)|exact Hq].
-  - symmetry. apply (absv_same s _ T [Live q] W); reflexivity.
+  unfold setitem_q. destruct (aget qname_eqb (st_cache s) q) as [c|].
+  - split; [exact W1|]. eexists. split; [|apply out_agrees_refl].
+    rewrite !abs_sys_eq. unfold with_dict. cbn [d_dict d_views d_dns d_node_ns with_store st_store st_dns st_node_ns].
+    apply f_equal2; [|reflexivity]. apply mkD_eq; try reflexivity.
+    symmetry. apply (abs_set_s s T q v W Hq).
+  - pose proof (wf_new_cached _ T q W1) as W2. cbn [st_objs st_cache with_store] in W2.
+    split; [exact W2|]. eexists. split; [|apply out_agrees_refl].
+    rewrite !abs_sys_eq. unfold with_dict. cbn [d_dict d_views d_dns d_node_ns]. cbn.
+    apply f_equal2; [|reflexivity]. apply mkD_eq; try reflexivity.
+    + symmetry. apply (abs_set_s s T q v W Hq).
+    + symmetry. apply (absv_same s _ T [Live q] W); reflexivity.
+Qed.
+
+Lemma setitem_facts s q' v :
+  st_store (setitem_q s q' v) = aset str_eqb (st_store s) (skey s q') v /\
+  st_dns (setitem_q s q' v) = st_dns s /\ st_node_ns (setitem_q s q' v) = st_node_ns s /\
+  (exists e, st_objs (setitem_q s q' v) = st_objs s ++ e) /\
+  (forall q, q' <> q -> aget qname_eqb (st_cache (setitem_q s q' v)) q = aget qname_eqb (st_cache s) q).
+Proof.
+  unfold setitem_q. destruct (aget qname_eqb (st_cache s) q') as [c|]; cbn.
+  - repeat split. exists []. rewrite app_nil_r. reflexivity.
+  - repeat split; [exists [Live q']; reflexivity|]. intros q Hne. apply (aget_aset_other qname_eqb qname_eqb_eq). exact Hne.
 Qed.
 
 Lemma skey_ok_decon dns k : skey_ok dns k = true -> decon_ok k = true.
@@ -754,7 +811,7 @@ Proof.
   rewrite abs_sys_eq. cbn [d_views d_dict]. rewrite (absv_nth s T i o Hn).
   destruct (view_cases s T o W (nth_error_In _ _ Hn)) as [[q [v [Hl [Hp [Hc Hv]]]]]|[v [q Hd]]].
   - rewrite (obj_at_nth s o _ Hl). cbn [abs_obj]. unfold obj_value. rewrite Hl, Hv.
-    rewrite (abs_get (st_dns s) (st_store s) q (wf_keys s T W) Hp). fold (skey s q). rewrite Hv.
+    rewrite (abs_get_s s T q W Hp). rewrite Hv.
     eexists. split; [reflexivity|apply out_agrees_refl].
   - rewrite (obj_at_nth s o _ Hd). cbn [abs_obj]. unfold obj_value. rewrite Hd.
     eexists. split; [reflexivity|apply out_agrees_refl].
@@ -772,7 +829,7 @@ Proof.
   - rewrite (obj_at_nth s o _ Hl). cbn [abs_obj]. unfold obj_set_value. rewrite Hl. cbn [fst snd].
     split; [apply wf_store_set; assumption|]. eexists. split; [|apply out_agrees_refl].
     rewrite abs_sys_eq. unfold with_dict. cbn. f_equal. f_equal.
-    symmetry. apply abs_set; [apply (wf_keys s T W)|exact Hp].
+    symmetry. apply (abs_set_s s T q v W Hp).
   - rewrite (obj_at_nth s o _ Hd). cbn [abs_obj]. unfold obj_set_value. rewrite Hd. cbn [fst snd].
     assert (o < length (st_objs s)) as Hlt by (apply nth_error_Some; rewrite Hd; discriminate).
     split.
@@ -830,11 +887,11 @@ Proof.
     + intros _ Hin. pose proof (view_ok_lt s _ (wf_views s T W _ Hin)). lia.
 Qed.
 
-Lemma skey_same s s1 q : st_dns s1 = st_dns s -> skey s1 q = skey s q.
-Proof. intros H. unfold skey. rewrite H. reflexivity. Qed.
+Lemma skey_same s s1 q : st_dns s1 = st_dns s -> st_store s1 = st_store s -> skey s1 q = skey s q.
+Proof. intros H H2. unfold skey. rewrite H, H2. reflexivity. Qed.
 
 Lemma contains_same s s1 q : st_dns s1 = st_dns s -> st_store s1 = st_store s -> contains_q s1 q = contains_q s q.
-Proof. intros H1 H2. unfold contains_q. rewrite (skey_same s s1 q H1), H2. reflexivity. Qed.
+Proof. intros H1 H2. unfold contains_q. rewrite (skey_same s s1 q H1 H2), H2. reflexivity. Qed.
 
 Lemma delitem_eq s T q :
   Wf s T -> plainq q = true -> contains_q s q = true ->
@@ -854,7 +911,7 @@ Proof.
   exists s1, c, v. do 9 (split; [assumption|]). split; [reflexivity|].
   pose proof (cache_live s1 T q c W1 Hc) as Hl.
   unfold delitem_q. rewrite C, Hg. unfold obj_value. rewrite Hl. unfold kill_state.
-  rewrite (skey_same s s1 q Hd), Hs, Ev. reflexivity.
+  rewrite (skey_same s s1 q Hd Hs), Hs, Ev. reflexivity.
 Qed.
 
 Lemma in_adel_neq {V} (l : list (qname * V)) k x :
@@ -878,7 +935,7 @@ Lemma kill_good s1 T q c v (but : option oid) :
   abs_store (st_dns s') (st_store s') = ddel (abs_store (st_dns s1) (st_store s1)) (norm (st_dns s1) q) /\
   absv s' T = kill_views (norm (st_dns s1) q) v (absv s1 T).
 Proof.
-  intros W Hq Hc Hv Hst s'. subst s'. unfold kill_state.
+  intros W Hq Hc Hv Hst s'. subst s'. unfold kill_state. rewrite (skey_nc s1 T q W Hq) in Hv |- *.
   pose proof (cache_live s1 T q c W Hc) as Hl.
   assert (c < length (st_objs s1)) as Hlt by (apply nth_error_Some; rewrite Hl; discriminate).
   split; [|split].
@@ -896,10 +953,11 @@ Proof.
         destruct (nth_error (st_objs s1) o) as [[q'|]|] eqn:Eo; try assumption.
         apply andb_true_iff in Hvo. destruct Hvo as [Hp Hco]. rewrite Hp. cbn [andb].
         unfold contains_q, skey, ahas in *. cbn [st_store st_dns].
+        rewrite (etree_key_nc _ _ q' (keys_ok_del _ _ H3 _) Hp). rewrite (etree_key_nc _ _ q' H3 Hp) in Hco.
         rewrite (aget_adel_other str_eqb str_eqb_eq); [exact Hco|].
         intros Hk. apply (etree_key_norm_iff (st_dns s1) q q' Hq Hp) in Hk.
         apply Hne. symmetry. apply (Hst o q' Ho Eo). symmetry. exact Hk.
-  - cbn. unfold skey. apply abs_del; [apply (wf_keys s1 T W)|exact Hq].
+  - cbn. apply abs_del; [apply (wf_keys s1 T W)|exact Hq].
   - rewrite kill_views_map. unfold absv. rewrite map_map. cbn [st_dns].
     apply map_ext_in. intros o Ho. unfold obj_at. cbn [st_objs].
     rewrite (nth_set_nth _ c o _ _ Hlt).
@@ -919,7 +977,7 @@ Lemma del_good s T q :
   Good ((fst (delitem_q s q), T), snd (delitem_q s q)) (fun _ => d_del (abs_sys (s, T)) (norm (st_dns s) q)).
 Proof.
   intros W Hq Hsafe. unfold Good, d_del. cbn [fst snd]. rewrite abs_sys_eq. cbn [d_dict d_views d_dns d_node_ns].
-  rewrite (abs_get (st_dns s) (st_store s) q (wf_keys s T W) Hq). fold (skey s q).
+  rewrite (abs_get_s s T q W Hq).
   destruct (contains_q s q) eqn:C.
   2:{ unfold delitem_q. rewrite C. cbn [fst snd]. split; [exact W|].
       unfold contains_q, ahas in C. destruct (aget str_eqb (st_store s) (skey s q)); [discriminate|].
@@ -933,7 +991,7 @@ Proof.
     assert (nth_error (st_objs s) o = Some (Live q')) as Hl0.
     { rewrite He in Hl. rewrite nth_error_app_l in Hl; [exact Hl|]. apply view_ok_lt. apply (wf_views s T W). exact Ho. }
     destruct (Hsafe o q' Ho Hl0 Hnm) as [H|H]; [discriminate|]. destruct (Hu o H) as [_ ->]. reflexivity. }
-  assert (aget str_eqb (st_store s1) (skey s1 q) = Some v) as Hv1 by (rewrite (skey_same s s1 q Hd), Hs; exact Hv).
+  assert (aget str_eqb (st_store s1) (skey s1 q) = Some v) as Hv1 by (rewrite (skey_same s s1 q Hd Hs), Hs; exact Hv).
   destruct (kill_good s1 T q c v None W1 Hq Hc Hv1 Hst) as [W2 [Ha Hb]].
   split; [exact W2|]. eexists. split; [|apply out_agrees_refl].
   rewrite abs_sys_eq, Ha, Hb. cbn [kill_state st_dns st_node_ns]. rewrite Hs, Hd, Hn.
@@ -992,7 +1050,7 @@ Proof.
     destruct (Hsafe o q' HoT Hl0 Hnm) as [H|H]; [discriminate|]. destruct (Hu o H) as [_ ->]. reflexivity. }
   destruct (kill_good s1 T' q c v None WT' Hq Hc Hv' Hst) as [W2 [Ha Hb]].
   split; [exact W2|]. rewrite Hh, Hget. rewrite <- Hd. unfold d_del. rewrite abs_sys_eq. cbn [d_dict d_views d_dns d_node_ns].
-  rewrite (abs_get (st_dns s1) (st_store s1) q (wf_keys s1 T' WT') Hq). fold (skey s1 q). rewrite Hv'.
+  rewrite (abs_get_s s1 T' q WT' Hq). rewrite Hv'.
   eexists. split; [|apply out_agrees_refl].
   rewrite abs_sys_eq, Ha, Hb. reflexivity.
 Qed.
@@ -1018,7 +1076,7 @@ Proof.
     assert (acc_key (abs_sys (s, T)) a = Some (norm (st_dns s) q)) as Hk
       by (unfold acc_key; cbn; rewrite Hq; reflexivity).
     rewrite Hk. destruct (set_effect s T q v W Hp) as [W' Hab]. rewrite <- Hab.
-    apply IH; [exact W'|exact Hr].
+    apply IH; [exact W'|]. destruct (setitem_facts s q v) as [_ [_ [En _]]]. rewrite En. exact Hr.
 Qed.
 
 (* ------------------------------------------------------------------------------------------ *)
@@ -1034,94 +1092,134 @@ Qed.
 Lemma map_set_nth {A B} (f : A -> B) (l : list A) i x : map f (set_nth l i x) = set_nth (map f l) i (f x).
 Proof. revert i. induction l as [|a r IH]; intros [|i]; cbn; try reflexivity. rewrite IH. reflexivity. Qed.
 
-(* the entry of q is removed and the object o that viewed it becomes a view of q' (o was cached for q) *)
-Lemma move_good s1 T i o q q' v :
-  Wf s1 T -> plainq q = true -> plainq q' = true -> nth_error T i = Some o ->
-  aget qname_eqb (st_cache s1) q = Some o -> aget str_eqb (st_store s1) (skey s1 q) = Some v ->
-  contains_q s1 q' = true -> norm (st_dns s1) q <> norm (st_dns s1) q' ->
-  (forall t q'', In t T -> nth_error (st_objs s1) t = Some (Live q'') ->
-                 norm (st_dns s1) q'' = norm (st_dns s1) q -> t = o) ->
-  let F := mkA (adel str_eqb (st_store s1) (skey s1 q)) (st_dns s1) (st_node_ns s1)
-               (adel qname_eqb (st_cache s1) q) (set_nth (st_objs s1) o (Live q')) in
-  Wf F T /\
-  abs_store (st_dns F) (st_store F) = ddel (abs_store (st_dns s1) (st_store s1)) (norm (st_dns s1) q) /\
-  absv F T = set_nth (kill_views (norm (st_dns s1) q) v (absv s1 T)) i (VLive (norm (st_dns s1) q')).
+Lemma set_nth_ext {A} (l l' : list A) i x :
+  length l = length l' -> (forall j, j <> i -> nth_error l j = nth_error l' j) -> set_nth l i x = set_nth l' i x.
 Proof.
-  intros W Hq Hq' Hi Hc Hv Hc' Hne Hst F. subst F.
-  pose proof (cache_live s1 T q o W Hc) as Hl.
-  assert (o < length (st_objs s1)) as Hlt by (apply nth_error_Some; rewrite Hl; discriminate).
-  assert (skey s1 q <> skey s1 q') as Hk.
-  { unfold skey. intros H. apply (etree_key_norm_iff (st_dns s1) q q' Hq Hq') in H. contradiction. }
-  split; [|split].
-  - destruct W as [H1 H2 H3 H4 H5 H6 H7 H8]. constructor; cbn; try assumption.
-    + apply keys_ok_del. exact H3.
-    + apply (nodup_adel str_eqb). exact H4.
-    + apply (nodup_adel qname_eqb). exact H5.
-    + intros q'' x Hin. apply (in_adel_neq _ _ _ H5) in Hin. destruct Hin as [Hin Hnq]. cbn in Hnq.
-      specialize (H6 q'' x Hin). rewrite nth_error_set_nth_other; [exact H6|].
-      intros <-. rewrite Hl in H6. inversion H6. subst. apply Hnq. reflexivity.
-    + intros t Ht. pose proof (H8 t Ht) as Hvt. unfold view_ok in *. cbn.
-      destruct (Nat.eq_dec o t) as [<-|Hnt].
-      * rewrite nth_error_set_nth_same by exact Hlt. rewrite Hq'. cbn [andb].
-        unfold contains_q, skey, ahas in *. cbn [st_store st_dns].
-        rewrite (aget_adel_other str_eqb str_eqb_eq); [exact Hc'|exact Hk].
-      * rewrite nth_error_set_nth_other by exact Hnt.
-        destruct (nth_error (st_objs s1) t) as [[q''|]|] eqn:Et; try assumption.
-        apply andb_true_iff in Hvt. destruct Hvt as [Hp Hct]. rewrite Hp. cbn [andb].
-        unfold contains_q, skey, ahas in *. cbn [st_store st_dns].
-        rewrite (aget_adel_other str_eqb str_eqb_eq); [exact Hct|].
-        intros Hkk. apply (etree_key_norm_iff (st_dns s1) q q'' Hq Hp) in Hkk.
-        apply Hnt. symmetry. apply (Hst t q'' Ht Et). symmetry. exact Hkk.
-  - cbn. unfold skey. apply abs_del; [apply (wf_keys s1 T W)|exact Hq].
-  - pose proof (wf_T s1 T W) as ND.
-    rewrite (absv_set_nth s1 (mkA (adel str_eqb (st_store s1) (skey s1 q)) (st_dns s1) (st_node_ns s1)
-                                  (adel qname_eqb (st_cache s1) q) (set_nth (st_objs s1) o (Live q')))
-               T i o (Live q') ND Hi Hlt eq_refl eq_refl). cbn [abs_obj].
-    (* only position i is affected by kill_views *)
-    rewrite kill_views_map. unfold absv.
-    clear Hc Hv Hc' Hk. revert i Hi. induction T as [|t r IH]; intros [|i] Hi; cbn in *; try discriminate.
-    + inversion Hi. subst t. f_equal. inversion ND as [|? ? Ht ND']. subst.
-      rewrite map_map. apply map_ext_in. intros t Ht'.
-      pose proof (wf_views s1 _ W t (or_intror Ht')) as Hvt. unfold view_ok in Hvt. unfold obj_at.
-      destruct (nth_error (st_objs s1) t) as [[q''|v' q'']|] eqn:Et; [| |discriminate].
-      * rewrite (nth_error_nth _ _ _ Et). cbn [abs_obj].
-        destruct (qname_eqb (norm (st_dns s1) q'') (norm (st_dns s1) q)) eqn:En; [|reflexivity].
-        apply qname_eqb_eq in En. rewrite (Hst t q'' (or_intror Ht') Et En) in Ht'. contradiction.
-      * rewrite (nth_error_nth _ _ _ Et). reflexivity.
-    + inversion ND as [|? ? Ht ND']. subst. f_equal.
-      * pose proof (wf_views s1 _ W t (or_introl eq_refl)) as Hvt. unfold view_ok in Hvt. unfold obj_at.
-        destruct (nth_error (st_objs s1) t) as [[q''|v' q'']|] eqn:Et; [| |discriminate].
-        -- rewrite (nth_error_nth _ _ _ Et). cbn [abs_obj].
-           destruct (qname_eqb (norm (st_dns s1) q'') (norm (st_dns s1) q)) eqn:En; [|reflexivity].
-           apply qname_eqb_eq in En. exfalso. apply Ht.
-           rewrite (Hst t q'' (or_introl eq_refl) Et En). apply nth_error_In in Hi. exact Hi.
-        -- rewrite (nth_error_nth _ _ _ Et). reflexivity.
-      * apply IH; try assumption.
-        -- destruct W as [H1 H2 H3 H4 H5 H6 H7 H8]. constructor; try assumption.
-           intros t' Ht'. apply H8. right. exact Ht'.
-        -- intros t' q'' Ht' Et' En. apply (Hst t' q'' (or_intror Ht') Et' En).
+  revert l' i. induction l as [|a r IH]; intros [|a' r'] i Hlen H; cbn in *; try discriminate; [reflexivity|].
+  destruct i as [|i].
+  - f_equal. clear IH. revert r' Hlen H. induction r as [|b r IH]; intros [|b' r'] Hlen H; cbn in *; try discriminate; [reflexivity|].
+    pose proof (H 1 (ltac:(discriminate))) as H1. cbn in H1. inversion H1. f_equal.
+    apply IH; [lia|]. intros [|j] Hj; [contradiction|]. exact (H (S (S j)) (ltac:(discriminate))).
+  - pose proof (H 0 (ltac:(discriminate))) as H0. cbn in H0. inversion H0. f_equal.
+    apply IH; [lia|]. intros j Hj. apply (H (S j)). congruence.
 Qed.
-
-Lemma mkD_eq a a' b b' c c' d d' : a = a' -> b = b' -> c = c' -> d = d' -> mkD a b c d = mkD a' b' c' d'.
-Proof. intros -> -> -> ->. reflexivity. Qed.
 
 Lemma kill_set_nth_comm K v vs i K' :
   qname_eqb K' K = false ->
   kill_views K v (set_nth vs i (VLive K')) = set_nth (kill_views K v vs) i (VLive K').
 Proof. intros H. rewrite !kill_views_map, map_set_nth. rewrite H. reflexivity. Qed.
 
-Lemma wf_set_live s1 T o q' :
-  Wf s1 T -> In o T -> (forall q'', ~ In (q'', o) (st_cache s1)) -> plainq q' = true -> contains_q s1 q' = true ->
-  Wf (with_objs s1 (set_nth (st_objs s1) o (Live q'))) T.
+(* The entry of q is removed (the object c cached for q is detached) and the object o, which viewed it,
+   becomes the cached view of q'.  Every held live view of the entry is c or o. *)
+Lemma move_good2 s1 T i o c q q' v :
+  Wf s1 T -> plainq q = true -> plainq q' = true -> nth_error T i = Some o ->
+  nth_error (st_objs s1) o = Some (Live q) ->
+  aget qname_eqb (st_cache s1) q = Some c -> aget str_eqb (st_store s1) (skey s1 q) = Some v ->
+  contains_q s1 q' = true -> norm (st_dns s1) q <> norm (st_dns s1) q' ->
+  (forall t q'', In t T -> nth_error (st_objs s1) t = Some (Live q'') ->
+                 norm (st_dns s1) q'' = norm (st_dns s1) q -> t = c \/ t = o) ->
+  let F := mkA (adel str_eqb (st_store s1) (skey s1 q)) (st_dns s1) (st_node_ns s1)
+               (aset qname_eqb (adel qname_eqb (st_cache s1) q) q' o)
+               (set_nth (set_nth (st_objs s1) c (Dead v q)) o (Live q')) in
+  Wf F T /\
+  abs_store (st_dns F) (st_store F) = ddel (abs_store (st_dns s1) (st_store s1)) (norm (st_dns s1) q) /\
+  absv F T = set_nth (kill_views (norm (st_dns s1) q) v (absv s1 T)) i (VLive (norm (st_dns s1) q')).
 Proof.
-  intros W Ho Hnc Hq' Hc'. pose proof (view_ok_lt s1 o (wf_views s1 T W o Ho)) as Hlt.
-  destruct W as [H1 H2 H3 H4 H5 H6 H7 H8]. constructor; cbn; try assumption.
-  - intros q'' x Hin. specialize (H6 q'' x Hin). rewrite nth_error_set_nth_other; [exact H6|].
-    intros <-. exact (Hnc q'' Hin).
-  - intros t Ht. specialize (H8 t Ht). unfold view_ok in *. cbn.
-    destruct (Nat.eq_dec o t) as [<-|Hnt].
-    + rewrite nth_error_set_nth_same by exact Hlt. rewrite Hq'. exact Hc'.
-    + rewrite nth_error_set_nth_other by exact Hnt. exact H8.
+  intros W Hq Hq' Hi Hlo Hc Hv Hc' Hne Hst F. subst F.
+  unfold contains_q in Hc'. rewrite (skey_nc s1 T q W Hq) in Hv |- *. rewrite (skey_nc s1 T q' W Hq') in Hc'.
+  pose proof (cache_live s1 T q c W Hc) as Hlc.
+  assert (c < length (st_objs s1)) as Hltc by (apply nth_error_Some; rewrite Hlc; discriminate).
+  assert (o < length (st_objs s1)) as Hlto by (apply nth_error_Some; rewrite Hlo; discriminate).
+  assert (etree_key0 (st_dns s1) q <> etree_key0 (st_dns s1) q') as Hk.
+  { intros H. apply (etree_key_norm_iff (st_dns s1) q q' Hq Hq') in H. contradiction. }
+  set (objsF := set_nth (set_nth (st_objs s1) c (Dead v q)) o (Live q')).
+  assert (nth_error objsF o = Some (Live q')) as HFo.
+  { unfold objsF. apply nth_error_set_nth_same. rewrite length_set_nth. exact Hlto. }
+  assert (forall t, t <> o -> t <> c -> nth_error objsF t = nth_error (st_objs s1) t) as HFt.
+  { intros t H1 H2. unfold objsF. rewrite nth_error_set_nth_other by congruence.
+    apply nth_error_set_nth_other. congruence. }
+  assert (c <> o -> nth_error objsF c = Some (Dead v q)) as HFc.
+  { intros H. unfold objsF. rewrite nth_error_set_nth_other by congruence. apply nth_error_set_nth_same. exact Hltc. }
+  pose proof (wf_keys s1 T W) as H3.
+  pose proof (keys_ok_del (st_dns s1) (st_store s1) H3 (etree_key0 (st_dns s1) q)) as H3'.
+  split; [|split].
+  - destruct W as [H1 H2 _ H4 H5 H6 H7 H8]. constructor; cbn [st_store st_dns st_node_ns st_cache st_objs]; try assumption.
+    + apply (nodup_adel str_eqb). exact H4.
+    + apply (nodup_aset qname_eqb qname_eqb_eq). apply (nodup_adel qname_eqb). exact H5.
+    + intros q'' x Hin. apply in_aset_inv in Hin. destruct Hin as [Hin|[Hin|[w [Hin [Hw He]]]]].
+      * apply (in_adel_neq _ _ _ H5) in Hin. destruct Hin as [Hin Hnq]. cbn in Hnq.
+        pose proof (H6 q'' x Hin) as Hx. rewrite HFt; [exact Hx| |].
+        -- intros ->. rewrite Hlo in Hx. inversion Hx. subst. apply Hnq. reflexivity.
+        -- intros ->. rewrite Hlc in Hx. inversion Hx. subst. apply Hnq. reflexivity.
+      * inversion Hin. subst. exact HFo.
+      * cbn in Hw, He. subst x. apply qname_eqb_eq in He. subst q''. exact HFo.
+    + intros t Ht. pose proof (H8 t Ht) as Hvt. unfold view_ok in *. cbn [st_objs].
+      destruct (Nat.eq_dec t o) as [->|Hnto].
+      * rewrite HFo, Hq'. cbn [andb]. unfold contains_q, skey, ahas in *. cbn [st_store st_dns].
+        rewrite (etree_key_nc _ _ q' H3' Hq'). rewrite (aget_adel_other str_eqb str_eqb_eq); [exact Hc'|exact Hk].
+      * destruct (Nat.eq_dec t c) as [->|Hntc]; [rewrite (HFc Hnto); reflexivity|].
+        rewrite (HFt t Hnto Hntc).
+        destruct (nth_error (st_objs s1) t) as [[q''|]|] eqn:Et; try assumption.
+        apply andb_true_iff in Hvt. destruct Hvt as [Hp Hct]. rewrite Hp. cbn [andb].
+        unfold contains_q, skey, ahas in *. cbn [st_store st_dns].
+        rewrite (etree_key_nc _ _ q'' H3' Hp). rewrite (etree_key_nc _ _ q'' H3 Hp) in Hct.
+        rewrite (aget_adel_other str_eqb str_eqb_eq); [exact Hct|].
+        intros Hkk. apply (etree_key_norm_iff (st_dns s1) q q'' Hq Hp) in Hkk.
+        destruct (Hst t q'' Ht Et (eq_sym Hkk)); contradiction.
+  - cbn. apply abs_del; [exact H3|exact Hq].
+  - pose proof (wf_T s1 T W) as ND.
+    set (F0 := mkA (st_store s1) (st_dns s1) (st_node_ns s1) (st_cache s1) (set_nth (st_objs s1) c (Dead v q))).
+    rewrite (absv_set_nth F0 (mkA (adel str_eqb (st_store s1) (etree_key0 (st_dns s1) q)) (st_dns s1) (st_node_ns s1)
+                                  (aset qname_eqb (adel qname_eqb (st_cache s1) q) q' o) objsF)
+               T i o (Live q') ND Hi); [|cbn; rewrite length_set_nth; exact Hlto|reflexivity|reflexivity].
+    cbn [abs_obj st_dns F0]. apply set_nth_ext.
+    + rewrite kill_views_map, map_length, !absv_length. reflexivity.
+    + intros j Hj. rewrite kill_views_map. unfold absv. rewrite !nth_error_map.
+      destruct (nth_error T j) as [t|] eqn:Ej; [|reflexivity]. cbn [option_map]. f_equal.
+      assert (t <> o) as Hnto.
+      { intros ->. apply Hj. apply (proj1 (NoDup_nth_error T) ND); [apply nth_error_Some; rewrite Ej; discriminate|].
+        rewrite Ej, Hi. reflexivity. }
+      pose proof (nth_error_In _ _ Ej) as Ht.
+      unfold obj_at. cbn [st_objs st_dns F0]. rewrite (nth_set_nth _ c t _ _ Hltc).
+      destruct (Nat.eqb t c) eqn:E.
+      * apply Nat.eqb_eq in E. subst t. rewrite (nth_error_nth _ _ _ Hlc). cbn [abs_obj]. rewrite qname_eqb_refl. reflexivity.
+      * pose proof (wf_views s1 T W t Ht) as Hvt. unfold view_ok in Hvt.
+        destruct (nth_error (st_objs s1) t) as [[q''|v' q'']|] eqn:Et; [| |discriminate].
+        -- rewrite (nth_error_nth _ _ _ Et). cbn [abs_obj].
+           destruct (qname_eqb (norm (st_dns s1) q'') (norm (st_dns s1) q)) eqn:En; [|reflexivity].
+           apply qname_eqb_eq in En. destruct (Hst t q'' Ht Et En) as [->| ->]; [|contradiction].
+           rewrite Nat.eqb_refl in E. discriminate.
+        -- rewrite (nth_error_nth _ _ _ Et). reflexivity.
+Qed.
+
+(* renaming between two spellings of the same entry: only the cache entry moves *)
+Lemma rename_alias s T i o q q' :
+  Wf s T -> nth_error T i = Some o -> nth_error (st_objs s) o = Some (Live q) -> plainq q = true ->
+  plainq q' = true -> contains_q s q = true -> norm (st_dns s) q = norm (st_dns s) q' ->
+  let F := mkA (st_store s) (st_dns s) (st_node_ns s) (aset qname_eqb (adel qname_eqb (st_cache s) q) q' o)
+               (set_nth (st_objs s) o (Live q')) in
+  Wf F T /\ abs_sys (F, T) = abs_sys (s, T).
+Proof.
+  intros W Hi Hlo Hq Hq' Hc Hn F.
+  assert (o < length (st_objs s)) as Hlto by (apply nth_error_Some; rewrite Hlo; discriminate).
+  assert (skey s q' = skey s q) as Hk by (symmetry; apply (skey_norm_iff s T q q' W Hq Hq'); exact Hn).
+  split.
+  - subst F. destruct W as [H1 H2 H3 H4 H5 H6 H7 H8]. constructor; cbn [st_store st_dns st_node_ns st_cache st_objs]; try assumption.
+    + apply (nodup_aset qname_eqb qname_eqb_eq). apply (nodup_adel qname_eqb). exact H5.
+    + intros q'' x Hin. apply in_aset_inv in Hin. destruct Hin as [Hin|[Hin|[w [Hin [Hw He]]]]].
+      * apply (in_adel_neq _ _ _ H5) in Hin. destruct Hin as [Hin Hnq]. cbn in Hnq.
+        pose proof (H6 q'' x Hin) as Hx. rewrite nth_error_set_nth_other; [exact Hx|].
+        intros <-. rewrite Hlo in Hx. inversion Hx. subst. apply Hnq. reflexivity.
+      * inversion Hin. subst. apply nth_error_set_nth_same. exact Hlto.
+      * cbn in Hw, He. subst x. apply qname_eqb_eq in He. subst q''. apply nth_error_set_nth_same. exact Hlto.
+    + intros t Ht. pose proof (H8 t Ht) as Hvt. unfold view_ok in *. cbn [st_objs].
+      destruct (Nat.eq_dec o t) as [<-|Hnt].
+      * rewrite nth_error_set_nth_same by exact Hlto. rewrite Hq'. cbn [andb].
+        unfold contains_q in *. change (skey _ q') with (skey s q'). cbn [st_store]. rewrite Hk. exact Hc.
+      * rewrite nth_error_set_nth_other by exact Hnt. exact Hvt.
+  - rewrite !abs_sys_eq. apply mkD_eq; try reflexivity.
+    rewrite (absv_set_nth s F T i o (Live q') (wf_T s T W) Hi Hlto eq_refl eq_refl). cbn [abs_obj].
+    apply set_nth_id. rewrite (absv_nth s T i o Hi), (obj_at_nth s o _ Hlo). cbn [abs_obj]. rewrite Hn. reflexivity.
 Qed.
 
 Lemma rename_main s T i o q q' v :
@@ -1139,110 +1237,50 @@ Proof.
   { destruct (qname_eqb q q') eqn:E; [|reflexivity]. apply qname_eqb_eq in E. subst. exfalso. apply Hne. reflexivity. }
   assert (q' <> q) as Hqn by (intros ->; rewrite qname_eqb_refl in Hqq; discriminate).
   assert (skey s q' <> skey s q) as Hk.
-  { unfold skey. intros H. apply (etree_key_norm_iff (st_dns s) q' q Hq' Hq) in H. apply Hne. symmetry. exact H. }
+  { intros H. apply (skey_norm_iff s T q' q W Hq' Hq) in H. apply Hne. symmetry. exact H. }
+  assert (str_eqb (skey s q) (skey s q') = false) as Hkb by (apply str_eqb_false; congruence).
   pose proof (nth_error_In _ _ Hi) as HoT.
   assert (o < length (st_objs s)) as Hlt by (apply nth_error_Some; rewrite Hl; discriminate).
-  unfold set_new_key. rewrite Hl. cbn [oq]. rewrite Hqq. unfold obj_value at 1. rewrite Hl, Hv.
+  unfold set_new_key. rewrite Hl. cbn [oq]. rewrite Hqq, Hkb. unfold obj_value at 1. rewrite Hl, Hv.
   destruct (set_effect s T q' v W Hq') as [W1 Hab1].
+  destruct (setitem_facts s q' v) as [Es [Ed [En [[e1 Eo] Ecq]]]].
   set (s1 := setitem_q s q' v) in *.
-  assert (st_store s1 = aset str_eqb (st_store s) (skey s q') v) as Es by reflexivity.
-  assert (st_dns s1 = st_dns s) as Ed by reflexivity.
-  assert (st_node_ns s1 = st_node_ns s) as En by reflexivity.
-  assert (st_objs s1 = st_objs s ++ [Live q']) as Eo by reflexivity.
-  assert (st_cache s1 = aset qname_eqb (st_cache s) q' (length (st_objs s))) as Ec by reflexivity.
-  assert (absv s1 T = absv s T) as Eav by (apply (absv_same s s1 T [Live q'] W Ed Eo)).
+  assert (absv s1 T = absv s T) as Eav by (apply (absv_same s s1 T e1 W Ed Eo)).
   assert (abs_store (st_dns s1) (st_store s1) = dset (abs_store (st_dns s) (st_store s)) (norm (st_dns s) q') v) as Eas.
   { rewrite !abs_sys_eq in Hab1. apply (f_equal d_dict) in Hab1. exact Hab1. }
-  assert (nth_error (st_objs s1) o = Some (Live q)) as Hl1 by (rewrite Eo, nth_error_app_l by exact Hlt; exact Hl).
-  assert (o < length (st_objs s1)) as Hlt1 by (apply nth_error_Some; rewrite Hl1; discriminate).
+  assert (skey s1 q = skey s q) as Ek1.
+  { rewrite (skey_nc s1 T q W1 Hq), (skey_nc s T q W Hq), Ed. reflexivity. }
+  assert (skey s1 q' = skey s q') as Ek1'.
+  { rewrite (skey_nc s1 T q' W1 Hq'), (skey_nc s T q' W Hq'), Ed. reflexivity. }
   assert (aget str_eqb (st_store s1) (skey s1 q) = Some v) as Hv1.
-  { rewrite (skey_same s s1 q Ed), Es. rewrite (aget_aset_other str_eqb str_eqb_eq); [exact Hv|exact Hk]. }
-  assert (aget str_eqb (st_store s1) (skey s1 q') = Some v) as Hv1'.
-  { rewrite (skey_same s s1 q' Ed), Es. apply (aget_aset_same str_eqb str_eqb_eq). }
-  assert (contains_q s1 q' = true) as Hc1' by (unfold contains_q, ahas; rewrite Hv1'; reflexivity).
+  { rewrite Ek1, Es. rewrite (aget_aset_other str_eqb str_eqb_eq); [exact Hv|exact Hk]. }
+  assert (contains_q s1 q' = true) as Hc1'.
+  { unfold contains_q, ahas. rewrite Ek1', Es, (aget_aset_same str_eqb str_eqb_eq). reflexivity. }
   assert (contains_q s1 q = true) as Hc1 by (unfold contains_q, ahas; rewrite Hv1; reflexivity).
-  assert (aget qname_eqb (st_cache s1) q = aget qname_eqb (st_cache s) q) as Hcq.
-  { rewrite Ec. apply (aget_aset_other qname_eqb qname_eqb_eq). exact Hqn. }
-  assert (forall t q'', In t T -> nth_error (st_objs s1) t = Some (Live q'') ->
-                        norm (st_dns s) q'' = norm (st_dns s) q -> t = o \/ aget qname_eqb (st_cache s) q = Some t) as Hst1.
-  { intros t q'' Ht Et Hn.
+  destruct (delitem_eq s1 T q W1 Hq Hc1) as [s2 [c [v' [Hg [W2 [Hs2 [Hd2 [Hn2 [[e2 He2] [Hc2 [Hu2 [Hf2 [Hv2 Hdel]]]]]]]]]]]]].
+  rewrite Hdel. rewrite Hv1 in Hv2. inversion Hv2. subst v'.
+  eexists. split; [reflexivity|].
+  assert (nth_error (st_objs s2) o = Some (Live q)) as Hl2.
+  { rewrite He2, Eo, <- app_assoc, nth_error_app_l by exact Hlt. exact Hl. }
+  assert (aget str_eqb (st_store s2) (skey s2 q) = Some v) as Hv2'.
+  { rewrite (skey_same s1 s2 q Hd2 Hs2), Hs2. exact Hv1. }
+  assert (contains_q s2 q' = true) as Hc2' by (rewrite (contains_same s1 s2 q' Hd2 Hs2); exact Hc1').
+  assert (norm (st_dns s2) q <> norm (st_dns s2) q') as Hne2 by (rewrite Hd2, Ed; exact Hne).
+  assert (forall t q'', In t T -> nth_error (st_objs s2) t = Some (Live q'') ->
+                        norm (st_dns s2) q'' = norm (st_dns s2) q -> t = c \/ t = o) as Hst2.
+  { intros t q'' Ht Et Hn. rewrite Hd2, Ed in Hn.
     assert (nth_error (st_objs s) t = Some (Live q'')) as Et0.
-    { rewrite Eo in Et. rewrite nth_error_app_l in Et; [exact Et|]. apply view_ok_lt. apply (wf_views s T W t Ht). }
-    destruct (Hns t q'' Ht Et0 Hn) as [H|H]; [left; inversion H; reflexivity|right; exact H]. }
-  set (s2 := with_objs s1 (set_nth (st_objs s1) o (Live q'))).
-  assert (contains_q s2 q = true) as Hc2 by exact Hc1.
-  assert (nth_error (st_objs s2) o = Some (Live q')) as Hl2 by (apply nth_error_set_nth_same; exact Hlt1).
-  assert (aget qname_eqb (st_cache s) q = Some o \/ aget qname_eqb (st_cache s) q <> Some o) as Hdec.
-  { destruct (aget qname_eqb (st_cache s) q) as [c|]; [|right; discriminate].
-    destruct (Nat.eq_dec c o) as [->|Hco]; [left; reflexivity|right; congruence]. }
-  destruct Hdec as [Ecq|Ecq].
-  - (* o is the object cached for q *)
-    rewrite Ecq in Hcq.
-    unfold delitem_q. rewrite Hc2. unfold getitem_q. rewrite Hc2.
-    change (st_cache s2) with (st_cache s1). rewrite Hcq.
-    unfold obj_value. rewrite Hl2. change (st_store s2) with (st_store s1).
-    change (skey s2 q') with (skey s1 q'). rewrite Hv1'. cbn [oq].
-    eexists. split; [reflexivity|].
-    cbn [st_objs st_store st_dns st_node_ns st_cache with_objs s2]. rewrite !set_nth_set_nth.
-    assert (forall t q'', In t T -> nth_error (st_objs s1) t = Some (Live q'') ->
-                          norm (st_dns s1) q'' = norm (st_dns s1) q -> t = o) as Hst.
-    { intros t q'' Ht Et Hn. rewrite Ed in Hn. destruct (Hst1 t q'' Ht Et Hn) as [H|H]; [exact H|].
-      rewrite Ecq in H. inversion H. reflexivity. }
-    assert (norm (st_dns s1) q <> norm (st_dns s1) q') as Hne1 by (rewrite Ed; exact Hne).
-    destruct (move_good s1 T i o q q' v W1 Hq Hq' Hi Hcq Hv1 Hc1' Hne1 Hst) as [WF [Ha Hb]].
-    change (skey s2 q) with (skey s1 q).
-    split; [exact WF|]. rewrite abs_sys_eq. apply mkD_eq; try reflexivity.
-    + rewrite <- Eas, <- Ed. exact Ha.
-    + rewrite <- Eav, <- Ed. exact Hb.
-  - (* another object, or none, is cached for q: the state after the re-labelling of o is well-formed *)
-    assert (forall q'', ~ In (q'', o) (st_cache s1)) as Hnc.
-    { intros q'' Hin. rewrite Ec in Hin. apply in_aset_inv in Hin.
-      destruct Hin as [Hin|[Hin|[w [Hin [Hw He]]]]].
-      + pose proof (wf_cache s T W q'' o Hin) as H. rewrite Hl in H. inversion H. subst q''.
-        apply Ecq. apply (in_aget_nodup qname_eqb qname_eqb_eq _ _ _ (wf_cnodup s T W) Hin).
-      + inversion Hin. lia.
-      + cbn in Hw. lia. }
-    pose proof (wf_set_live s1 T o q' W1 HoT Hnc Hq' Hc1') as W2. fold s2 in W2.
-    destruct (delitem_eq s2 T q W2 Hq Hc2) as [s3 [c [v' [Hg [W3 [Hs3 [Hd3 [Hn3 [[e He3] [Hc3 [Hu3 [Hf3 [Hv3 Hdel]]]]]]]]]]]]].
-    rewrite Hdel.
-    assert (v' = v) as ->.
-    { change (st_store s2) with (st_store s1) in Hv3. change (skey s2 q) with (skey s1 q) in Hv3.
-      rewrite Hv1 in Hv3. inversion Hv3. reflexivity. }
-    assert (c <> o) as Hco.
-    { intros ->. destruct (aget qname_eqb (st_cache s) q) as [c'|] eqn:E'.
-      - destruct (Hu3 c') as [_ H]; [exact Hcq|]. subst c'. apply Ecq. reflexivity.
-      - apply Hf3; [exact Hcq|exact HoT]. }
-    assert (o < length (st_objs s2)) as Hlt2 by (apply nth_error_Some; rewrite Hl2; discriminate).
-    assert (nth_error (st_objs s3) o = Some (Live q')) as Hl3.
-    { rewrite He3, nth_error_app_l by exact Hlt2. exact Hl2. }
-    assert (set_nth (st_objs (kill_state s3 q c v q)) o (Live q') = st_objs (kill_state s3 q c v q)) as Hid.
-    { apply set_nth_id. cbn [st_objs kill_state]. rewrite nth_error_set_nth_other by exact Hco. exact Hl3. }
-    rewrite Hid. exists (kill_state s3 q c v q). split; [reflexivity|].
-    assert (aget str_eqb (st_store s3) (skey s3 q) = Some v) as Hv3'.
-    { rewrite (skey_same s2 s3 q Hd3), Hs3. exact Hv3. }
-    assert (forall t q'', In t T -> nth_error (st_objs s3) t = Some (Live q'') ->
-                          norm (st_dns s3) q'' = norm (st_dns s3) q -> t = c) as Hst3.
-    { intros t q'' Ht Et Hn. rewrite Hd3 in Hn. change (st_dns s2) with (st_dns s) in Hn.
-      assert (t < length (st_objs s2)) as Htl by (apply view_ok_lt; apply (wf_views s2 T W2 t Ht)).
-      rewrite He3, nth_error_app_l in Et by exact Htl.
-      destruct (Nat.eq_dec o t) as [<-|Hnt].
-      - rewrite Hl2 in Et. inversion Et. subst q''. exfalso. apply Hne. symmetry. exact Hn.
-      - change (st_objs s2) with (set_nth (st_objs s1) o (Live q')) in Et.
-        rewrite nth_error_set_nth_other in Et by exact Hnt.
-        destruct (Hst1 t q'' Ht Et Hn) as [H|H]; [congruence|].
-        destruct (Hu3 t) as [_ ->]; [rewrite <- H; exact Hcq|reflexivity]. }
-    destruct (kill_good s3 T q c v None W3 Hq Hc3 Hv3' Hst3) as [W4 [Ha Hb]].
-    split; [exact W4|]. rewrite abs_sys_eq. apply mkD_eq.
-    + rewrite Ha, Hs3, Hd3. change (st_store s2) with (st_store s1). change (st_dns s2) with (st_dns s1).
-      rewrite Eas, Ed. reflexivity.
-    + rewrite Hb. rewrite (absv_same s2 s3 T e W2 Hd3 He3).
-      rewrite (absv_set_nth s1 s2 T i o (Live q') (wf_T s T W) Hi Hlt1 eq_refl eq_refl). cbn [abs_obj].
-      rewrite Hd3. change (st_dns s2) with (st_dns s). rewrite Ed.
-      rewrite kill_set_nth_comm; [rewrite Eav; reflexivity|].
-      destruct (qname_eqb (norm (st_dns s) q') (norm (st_dns s) q)) eqn:E; [|reflexivity].
-      apply qname_eqb_eq in E. exfalso. apply Hne. symmetry. exact E.
-    + cbn [st_dns kill_state]. rewrite Hd3. reflexivity.
-    + cbn [st_node_ns kill_state]. rewrite Hn3. reflexivity.
+    { rewrite He2, Eo, <- app_assoc in Et. rewrite nth_error_app_l in Et; [exact Et|].
+      apply view_ok_lt. apply (wf_views s T W t Ht). }
+    destruct (Hns t q'' Ht Et0 Hn) as [H|H]; [right; inversion H; reflexivity|left].
+    rewrite <- (Ecq q Hqn) in H. destruct (Hu2 t H) as [_ ->]. reflexivity. }
+  destruct (move_good2 s2 T i o c q q' v W2 Hq Hq' Hi Hl2 Hc2 Hv2' Hc2' Hne2 Hst2) as [WF [Ha Hb]].
+  unfold kill_state. cbn [st_store st_dns st_node_ns st_cache st_objs].
+  split; [exact WF|]. rewrite abs_sys_eq. apply mkD_eq.
+  - cbn [st_store st_dns] in Ha |- *. rewrite Ha, Hs2, Hd2, Eas, Ed. reflexivity.
+  - rewrite Hb. rewrite (absv_same s1 s2 T e2 W1 Hd2 He2), Eav, Hd2, Ed. reflexivity.
+  - cbn. rewrite Hd2, Ed. reflexivity.
+  - cbn. rewrite Hn2, En. reflexivity.
 Qed.
 
 Lemma rename_good s T i o q' (fk : qname -> qname) :
@@ -1262,16 +1300,21 @@ Proof.
     destruct (qname_eqb q q') eqn:E.
     + apply qname_eqb_eq in E. subst q'. unfold set_new_key. rewrite Hl. cbn [oq]. rewrite qname_eqb_refl.
       cbn [fst snd]. rewrite qname_eqb_refl. split; [exact W|]. eexists. split; [reflexivity|apply out_agrees_refl].
-    + apply andb_true_iff in Hsafe. destruct Hsafe as [Hse Hns]. apply negb_true_iff in Hse.
-      unfold same_entry in Hse. rewrite Hse.
-      assert (norm (st_dns s) q <> norm (st_dns s) q') as Hne.
-      { intros H. rewrite H, qname_eqb_refl in Hse. discriminate. }
-      destruct (rename_main s T i o q q' v W Hi Hl Hp Hv Hq' Hne (no_stale_prop _ _ _ _ Hns)) as [F [-> [WF Hab]]].
-      cbn [fst snd]. split; [exact WF|].
-      assert (dget (d_dict (abs_sys (s, T))) (norm (st_dns s) q) = Some v) as Hg.
-      { rewrite abs_sys_eq. cbn [d_dict]. rewrite (abs_get (st_dns s) (st_store s) q (wf_keys s T W) Hp).
-        fold (skey s q). exact Hv. }
-      rewrite Hg. eexists. split; [|apply out_agrees_refl]. rewrite Hab. reflexivity.
+    + destruct (same_entry s q q') eqn:Hse.
+      * (* another spelling of the same entry *)
+        unfold same_entry in Hse. rewrite Hse. apply qname_eqb_eq in Hse.
+        assert (skey s q = skey s q') as Hk by (apply (skey_norm_iff s T q q' W Hp Hq'); exact Hse).
+        unfold set_new_key. rewrite Hl. cbn [oq]. rewrite E, Hk, str_eqb_refl. cbn [fst snd].
+        destruct (rename_alias s T i o q q' W Hi Hl Hp Hq' Hc Hse) as [WF Hab].
+        split; [exact WF|]. eexists. split; [|apply out_agrees_refl]. rewrite Hab. reflexivity.
+      * unfold same_entry in Hse. rewrite Hse.
+        assert (norm (st_dns s) q <> norm (st_dns s) q') as Hne.
+        { intros H. rewrite H, qname_eqb_refl in Hse. discriminate. }
+        destruct (rename_main s T i o q q' v W Hi Hl Hp Hv Hq' Hne (no_stale_prop _ _ _ _ Hsafe)) as [F [-> [WF Hab]]].
+        cbn [fst snd]. split; [exact WF|].
+        assert (dget (d_dict (abs_sys (s, T))) (norm (st_dns s) q) = Some v) as Hg.
+        { rewrite abs_sys_eq. cbn [d_dict]. rewrite (abs_get_s s T q W Hp). exact Hv. }
+        rewrite Hg. eexists. split; [|apply out_agrees_refl]. rewrite Hab. reflexivity.
   - rewrite (obj_at_nth s o _ Hd). cbn [abs_obj]. unfold set_new_key. rewrite Hd. cbn [oq].
     destruct (qname_eqb q q'); cbn [fst snd]; (split; [exact W|]); eexists; (split; [reflexivity|left; reflexivity]).
 Qed.
@@ -1461,8 +1504,8 @@ Lemma astep_resolve s a1 a2 :
 Proof. intros H. cbn [astep]. unfold with_q. rewrite H. repeat split. Qed.
 
 (* "no namespace" and the default namespace in scope reach the same store entry *)
-Lemma alias_same_entry dns name : etree_key dns ([], name) = etree_key dns (dns, name).
-Proof. unfold etree_key. cbn [fst snd null negb andb]. rewrite str_eqb_refl. rewrite andb_false_r. reflexivity. Qed.
+Lemma alias_same_entry dns name : etree_key0 dns ([], name) = etree_key0 dns (dns, name).
+Proof. unfold etree_key0. cbn [fst snd null negb andb]. rewrite str_eqb_refl. rewrite andb_false_r. reflexivity. Qed.
 
 (* ------------------------------------------------------------------------------------------ *)
 (* the statements in terms of the decidable well-formedness                                     *)
@@ -1503,13 +1546,13 @@ Qed.
 
 (* ------------------------------------------------------------------------------------------ *)
 (* equality of two attribute collections                                                        *)
-Lemma etree_key_present dns k : skey_ok dns k = true -> etree_key dns (present dns k) = k.
+Lemma etree_key_present dns k : skey_ok dns k = true -> etree_key0 dns (present dns k) = k.
 Proof.
   unfold skey_ok, skey_shape, collides. rewrite present_spec.
   destruct (spec_clark k) as [[[ns|] n]|] eqn:E; [| |discriminate]; apply spec_clark_inv in E; subst k.
-  - rewrite !andb_true_iff, !negb_true_iff. intros [[[Hn _] _] Hc]. unfold etree_key. cbn [fst snd].
+  - rewrite !andb_true_iff, !negb_true_iff. intros [[[Hn _] _] Hc]. unfold etree_key0, clark. cbn [fst snd].
     rewrite Hn, Hc. reflexivity.
-  - intros _. unfold etree_key. cbn [fst snd]. rewrite str_eqb_refl, andb_false_r. reflexivity.
+  - intros _. unfold etree_key0. cbn [fst snd]. rewrite str_eqb_refl, andb_false_r. reflexivity.
 Qed.
 
 Lemma plainq_present dns k : plain dns = true -> skey_ok dns k = true -> plainq (present dns k) = true.
